@@ -79,6 +79,48 @@ pub enum OpKind {
     Statx,
     /// `AsyncFd::connect(SocketAddr)`: address storage read by the kernel.
     Connect { v6: bool },
+    /// `AsyncFd::recv(Vec<u8>).flags(..)`: non-default arguments, which a
+    /// re-issue has to repeat. `flags` selects a subset of [`RECV_FLAGS`].
+    Recv { cap: u16, flags: u8 },
+    /// `AsyncFd::send(Vec<u8>).flags(..)`, `flags` a subset of [`SEND_FLAGS`].
+    Send { len: u16, flags: u8 },
+    /// `AsyncFd::read(Vec<u8>).from(off)`.
+    ReadAt { cap: u16, off: u32 },
+    /// `AsyncFd::write(Vec<u8>).at(off)`.
+    WriteAt { len: u16, off: u32 },
+}
+
+pub const RECV_FLAGS: [(a10::net::RecvFlag, i32); 4] = [(a10::net::RecvFlag::PEEK, libc::MSG_PEEK), (a10::net::RecvFlag::WAIT_ALL, libc::MSG_WAITALL), (a10::net::RecvFlag::OOB, libc::MSG_OOB), (a10::net::RecvFlag::CMSG_CLOEXEC, libc::MSG_CMSG_CLOEXEC)];
+pub const SEND_FLAGS: [(a10::net::SendFlag, i32); 4] = [(a10::net::SendFlag::MORE, libc::MSG_MORE), (a10::net::SendFlag::DONT_ROUTE, libc::MSG_DONTROUTE), (a10::net::SendFlag::EOR, libc::MSG_EOR), (a10::net::SendFlag::CONFIRM, libc::MSG_CONFIRM)];
+
+fn recv_flags(bits: u8) -> (Option<a10::net::RecvFlag>, u32) {
+    let mut acc: Option<a10::net::RecvFlag> = None;
+    let mut raw = 0u32;
+    for (k, (f, r)) in RECV_FLAGS.iter().enumerate() {
+        if bits & (1 << k) != 0 {
+            acc = Some(match acc {
+                Some(a) => a | *f,
+                None => *f,
+            });
+            raw |= *r as u32;
+        }
+    }
+    (acc, raw)
+}
+
+fn send_flags(bits: u8) -> (Option<a10::net::SendFlag>, u32) {
+    let mut acc: Option<a10::net::SendFlag> = None;
+    let mut raw = 0u32;
+    for (k, (f, r)) in SEND_FLAGS.iter().enumerate() {
+        if bits & (1 << k) != 0 {
+            acc = Some(match acc {
+                Some(a) => a | *f,
+                None => *f,
+            });
+            raw |= *r as u32;
+        }
+    }
+    (acc, raw)
 }
 
 impl OpKind {
@@ -95,6 +137,10 @@ impl OpKind {
             OpKind::SockOpt => "socket_option",
             OpKind::Statx => "metadata",
             OpKind::Connect { .. } => "connect",
+            OpKind::Recv { .. } => "recv[flags]",
+            OpKind::Send { .. } => "send[flags]",
+            OpKind::ReadAt { .. } => "read[from]",
+            OpKind::WriteAt { .. } => "write[at]",
         }
     }
     pub fn has_memory(&self) -> bool {
@@ -321,6 +367,64 @@ impl OpState {
                     Err(e) => Out::from_err(&e),
                 })
             }
+            OpKind::Recv { cap, flags } => {
+                let buf: Vec<u8> = {
+                    let _s = track::scope(track::TAG_RESOURCE);
+                    Vec::with_capacity((*cap as usize).max(1))
+                };
+                st.buf_addr = buf.as_ptr().addr();
+                let _s = track::scope(track::TAG_A10);
+                let mut op = afd.recv(buf);
+                if let (Some(f), _) = recv_flags(*flags) {
+                    op = op.flags(f);
+                }
+                boxed(op, |r| match r {
+                    Ok(v) => Out::Bytes(v),
+                    Err(e) => Out::from_err(&e),
+                })
+            }
+            OpKind::Send { len, flags } => {
+                let buf: Vec<u8> = {
+                    let _s = track::scope(track::TAG_RESOURCE);
+                    (0..*len as usize).map(|j| pattern_byte(id, j)).collect()
+                };
+                st.source = buf.clone();
+                st.buf_addr = buf.as_ptr().addr();
+                let _s = track::scope(track::TAG_A10);
+                let mut op = afd.send(buf);
+                if let (Some(f), _) = send_flags(*flags) {
+                    op = op.flags(f);
+                }
+                boxed(op, |r| match r {
+                    Ok(n) => Out::Count(n),
+                    Err(e) => Out::from_err(&e),
+                })
+            }
+            OpKind::ReadAt { cap, off } => {
+                let buf: Vec<u8> = {
+                    let _s = track::scope(track::TAG_RESOURCE);
+                    Vec::with_capacity((*cap as usize).max(1))
+                };
+                st.buf_addr = buf.as_ptr().addr();
+                let _s = track::scope(track::TAG_A10);
+                boxed(afd.read(buf).from(*off as u64), |r| match r {
+                    Ok(v) => Out::Bytes(v),
+                    Err(e) => Out::from_err(&e),
+                })
+            }
+            OpKind::WriteAt { len, off } => {
+                let buf: Vec<u8> = {
+                    let _s = track::scope(track::TAG_RESOURCE);
+                    (0..*len as usize).map(|j| pattern_byte(id, j)).collect()
+                };
+                st.source = buf.clone();
+                st.buf_addr = buf.as_ptr().addr();
+                let _s = track::scope(track::TAG_A10);
+                boxed(afd.write(buf).at(*off as u64), |r| match r {
+                    Ok(n) => Out::Count(n),
+                    Err(e) => Out::from_err(&e),
+                })
+            }
         };
         (st, fut)
     }
@@ -362,6 +466,45 @@ impl OpState {
                 }
                 return Ok(());
             }
+            OpKind::Recv { cap, flags } => {
+                let (_, raw) = recv_flags(*flags);
+                if sqe.opcode != abi::OP_RECV || sqe.fd != self.fd_raw || sqe.addr != self.buf_addr as u64 || (sqe.len as usize) < (*cap as usize).max(1) {
+                    return Err(format!("submission of recv differs from the expected encoding: got {sqe:?}, want opcode RECV on {} with the caller's buffer {:#x}+{}", self.fd_raw, self.buf_addr, cap));
+                }
+                if sqe.op_flags != raw {
+                    return Err(format!("submission of recv carries msg_flags {:#x}, the caller asked for {raw:#x}", sqe.op_flags));
+                }
+                return Ok(());
+            }
+            OpKind::Send { flags, .. } => {
+                let (_, raw) = send_flags(*flags);
+                if sqe.opcode != abi::OP_SEND || sqe.fd != self.fd_raw || (!self.source.is_empty() && sqe.addr != self.buf_addr as u64) || sqe.len as usize != self.source.len() {
+                    return Err(format!("submission of send differs from the expected encoding: got {sqe:?}, want opcode SEND on {} with the caller's buffer {:#x}+{}", self.fd_raw, self.buf_addr, self.source.len()));
+                }
+                // a10 always adds MSG_NOSIGNAL.
+                if sqe.op_flags & !(libc::MSG_NOSIGNAL as u32) != raw {
+                    return Err(format!("submission of send carries msg_flags {:#x}, the caller asked for {raw:#x}", sqe.op_flags));
+                }
+                return Ok(());
+            }
+            OpKind::ReadAt { cap, off } => {
+                want.opcode = abi::OP_READ;
+                want.off = *off as u64;
+                want.addr = self.buf_addr as u64;
+                want.len = sqe.len;
+                if (sqe.len as usize) < (*cap as usize).max(1) {
+                    return Err(format!("READ len {} smaller than spare capacity {}", sqe.len, cap));
+                }
+            }
+            OpKind::WriteAt { off, .. } => {
+                want.opcode = abi::OP_WRITE;
+                want.off = *off as u64;
+                want.addr = self.buf_addr as u64;
+                want.len = self.source.len() as u32;
+                if self.source.is_empty() {
+                    want.addr = sqe.addr;
+                }
+            }
             OpKind::ReadVec { cap, prefill } => {
                 let cap = (*cap as usize).max(1);
                 let prefill = (*prefill as usize).min(cap - 1);
@@ -397,7 +540,7 @@ impl OpState {
                 self.expect = Some(Expect::Unit);
                 Ok((0, 0))
             }
-            OpKind::WriteStatic { .. } | OpKind::WriteVec { .. } => {
+            OpKind::WriteStatic { .. } | OpKind::WriteVec { .. } | OpKind::Send { .. } | OpKind::WriteAt { .. } => {
                 let n = scale(self.source.len());
                 if let Some(region) = req.regions.iter().find(|r| r.what == "buffer") {
                     match regions::read_region(region, 0, region.len) {
@@ -523,7 +666,7 @@ impl OpState {
                 self.expect = Some(Expect::Unit);
                 Ok((0, 0))
             }
-            OpKind::ReadVec { .. } => {
+            OpKind::ReadVec { .. } | OpKind::Recv { .. } | OpKind::ReadAt { .. } => {
                 let Some(region) = req.regions.iter().find(|r| r.what == "buffer") else {
                     self.expect = Some(Expect::Bytes(self.before.clone()));
                     return Ok((0, 0));
@@ -544,7 +687,7 @@ impl OpState {
     /// An interrupted attempt scribbles over the destination (the bytes must
     /// never show up in the result).
     pub fn kernel_interrupt(&mut self, req: &Req) {
-        if let OpKind::ReadVec { .. } = self.kind {
+        if matches!(self.kind, OpKind::ReadVec { .. } | OpKind::Recv { .. } | OpKind::ReadAt { .. }) {
             if let Some(region) = req.regions.iter().find(|r| r.what == "buffer") {
                 let junk = vec![0xEEu8; region.len.min(64)];
                 let _ = regions::write_region(region, 0, &junk);
